@@ -1,6 +1,19 @@
 import MahfModel.Model.Determinism
 open MahfModel MahfModel.Determinism
 
+/-- Digest cases: there is no model prediction to compare (`agree` is vacuously true); the property's
+predicate is "all digests of the case are equal, and they are digests of completed runs". -/
+def digestVerdict (kind : String) (digests : Sexp) : Option Verdict := do
+  let (want, eq) ← digestsEqual digests
+  let degenerate := match digests with
+    | .list (.atom "digests" :: .list [_, d0] :: rest) => degenerateDigest d0 || rest.isEmpty
+    | _ => true
+  let holds := eq && !degenerate
+  pure { agree := true, holds,
+         cls := if holds then "-" else if degenerate then "degenerate"
+                else if kind == "user-rng" then "rng-replaced" else "digest-differs",
+         model := want }
+
 def c08 (input implOut : Sexp) : Option Verdict := do
   match input with
   | .list (.atom "children" :: _) =>
@@ -9,11 +22,17 @@ def c08 (input implOut : Sexp) : Option Verdict := do
   | .list [.atom "pairs", _, n] =>
     let model := Sexp.list [.atom "pairs", n, .list [.atom "collisions", .atom "0"]]
     let ok := Sexp.beq model implOut
-    pure { agree := ok, holds := ok, cls := if ok then "-" else "collision", model }
-  | .list (.atom kind :: _) =>
-    let (model, ok) ← predictDigests implOut
-    pure { agree := ok, holds := ok,
-           cls := if ok then "-" else (if kind == "user-rng" then "rng-replaced" else "digest-differs"), model }
+    pure { agree := true, holds := ok, cls := if ok then "-" else "collision", model }
+  | .list (.atom "exp" :: _) =>
+    match implOut with
+    | .list [.atom "exp", seeds, digests] =>
+      let (seedModel, seedsOk) ← predictExpSeeds seeds
+      let v ← digestVerdict "exp" digests
+      pure { agree := seedsOk, holds := seedsOk && v.holds,
+             cls := if !seedsOk then "experiment-seed" else v.cls,
+             model := .list [.atom "exp", seedModel, v.model] }
+    | _ => none
+  | .list (.atom kind :: _) => digestVerdict kind implOut
   | _ => none
 
 def main : IO Unit := driverMain (respond c08)
